@@ -30,7 +30,7 @@ ASSUMPTIONS = ['the samples delivered by antenna_source.get_samples are the inpu
 def required(tier):
     b = {'bits:8': 20, 'bits:4': 20, 'npol:1': 20, 'npol:2': 20, 'array': 10, 'single': 20, 'orient:asc': 20, 'orient:desc': 20,
          'digitize:on': 20, 'digitize:off': 10, 'nsub-not-dividing': 10, 'multi-file': 20, 'last-file-partial': 10,
-         'partition-sweep': 20, 'second-recording-same-backend': 10, 'collect-direct': 10, 'digitiser:wider-than-8-bits': 15}
+         'partition-sweep': 20, 'second-recording-same-backend': 10, 'collect-direct': 10, 'digitiser:wider-than-8-bits': 15, 'header:512-aligned+directio': 30}
     return {'buckets': b, 'counters': {'samples_compared': 100000, 'recordings': 300, 'partition_recordings': 200},
             'checks': 500, 'nontrivial': 50}
 
@@ -114,7 +114,15 @@ def run_case(c, R):
     attach.wrap(stg.voltage.RawVoltageBackend, 'collect_data_block', post=post)
     try:
         stem = os.path.join(tmp, f"c02_{c['_idx']}_a")
-        rec = work_raw.do_record(stg, cfg, stem)
+        hd = None
+        if c['_idx'] % 6 == 5:
+            # the payload sits where the format says for EVERY header length: here exactly k*512 bytes (no padding even with DIRECTIO)
+            hd = {'DIRECTIO': 1}
+            base = 16 + (1 if cfg['nants'] > 1 else 0) + 1 + 1          # configuration cards + DIRECTIO + END
+            for k_ in range((-base) % 32):
+                hd[f'FILL{k_:03d}'] = k_
+            R.bucket('header:512-aligned+directio')
+        rec = work_raw.do_record(stg, cfg, stem, header_dict=hd)
         rvb = rec['rvb']
         window = np.array(rvb.filterbank[0][0].window, dtype=float)
         calls_per_block = len(rec['delivered']) / cfg['nblocks']
